@@ -148,7 +148,7 @@ func spanEndTerm(v ssa.Value, depth int) bool {
 }
 
 func ruleGuardSuffices(c *Ctx) {
-	c.Rule("GUARD-SUFFICES", "Stated-bound rule, packages commonmark and format: for every read s[t] of a slice or string with t = V + a (a an integer constant of either sign), the branches on the way to the read that compare V (plus a constant) with len(s), with the exclusive End of a Span (directly or through an accessor that returns one), or — for a < 0 — with a constant, are collected with the edge that dominates the read. If such a comparison bounds t from above, the tightest bound over all of them must give t < bound; if the only comparisons put t at or beyond the bound, or below zero, the read is reached exactly when it is out of range. The rule never asks for a guard that is not there (INDEX-GUARD does, for cursor and look-ahead reads); it reports a guard that is there and is not enough: `>` for `>=`, a dropped +1, `||` for `&&`.")
+	c.Rule("GUARD-SUFFICES", "Stated-bound rule, packages commonmark and format: for every read s[t] of a slice or string with t = V + a (a an integer constant of either sign), the branches on the way to the read that compare V (plus a constant) with len(s), with the exclusive End of a Span (directly or through an accessor that returns one), or — for a < 0 — with a constant, are collected (a read counted from the end, s[len(s)-k], needs k >= 1 outright) with the edge that dominates the read. If such a comparison bounds t from above, the tightest bound over all of them must give t < bound; if the only comparisons put t at or beyond the bound, or below zero, the read is reached exactly when it is out of range. The rule never asks for a guard that is not there (INDEX-GUARD does, for cursor and look-ahead reads); it reports a guard that is there and is not enough: `>` for `>=`, a dropped +1, `||` for `&&`.")
 	p := c.P
 	n := 0
 	perFn := map[*ssa.Function]int{}
@@ -230,12 +230,24 @@ func ruleGuardSuffices(c *Ctx) {
 					}
 				}
 			}
-			if len(up) == 0 && len(lo) == 0 && (a >= 0 || (len(cup) == 0 && len(clo) == 0)) {
+			fromEnd := isLen(base)
+			if fromEnd && a < 0 && len(cup) == 0 && len(clo) == 0 && len(cneqs) == 0 {
+				return // nothing stated about the length: not this rule's business
+			}
+			if fromEnd {
+				clo = append(clo, gsFact{lo: true, l: a}) // a length is never negative
+			}
+			if !fromEnd && len(up) == 0 && len(lo) == 0 && (a >= 0 || (len(cup) == 0 && len(clo) == 0)) {
 				return
 			}
 			n++
 			perFn[fn]++
 			key := fmt.Sprintf("%s:read#%d", shortFuncName(fn), perFn[fn])
+			if fromEnd && a >= 0 {
+				// s[len(s)+a]: no comparison is needed to know where this lands
+				c.Viol("GUARD-SUFFICES", key, in.Pos(), fmt.Sprintf("read at len%+d of the slice it measures: out of range whenever it is reached", a))
+				return
+			}
 			// upper side
 			if len(up) > 0 {
 				u := up[0].u
@@ -319,5 +331,16 @@ func init() {
 			Old: "\tif end >= len(text) || text[end] != '@' {", New: "\tif !(end < len(text)) || text[end] != '@' {"},
 		Control{Name: "neg-nul-run-look-behind-geq-one", Props: []string{"C04"}, File: "inlines.go", Negative: true,
 			Old: "\tfor start > 0 && source[start-1] == 0 {", New: "\tfor start >= 1 && source[start-1] == 0 {"},
+	)
+}
+
+func init() {
+	addControls(
+		Control{Name: "last-line-node-read-at-length", Props: []string{"C04"}, File: "inlines.go",
+			Old: "\t\treturn state.unparsed[len(state.unparsed)-1].Span().End", New: "\t\treturn state.unparsed[len(state.unparsed)-0].Span().End", Expect: "GUARD-SUFFICES/(*inlineState).spanEnd:read#",
+			Why: "bulk mutant inlines.go:301 `1` to `0`"},
+		Control{Name: "crlf-hard-break-trim-needs-two-bytes", Props: []string{"C04"}, File: "inlines.go",
+			Old: "\t\tcase len(spanText) >= 2 && spanText[len(spanText)-2] == '\\r' && spanText[len(spanText)-1] == '\\n':", New: "\t\tcase len(spanText) >= 1 && spanText[len(spanText)-2] == '\\r' && spanText[len(spanText)-1] == '\\n':", Expect: "GUARD-SUFFICES/",
+			Why: "a one-byte text node in front of a hard break would read spanText[-1]"},
 	)
 }
